@@ -65,8 +65,59 @@ def selector_args(sel, via, env, env_idx, env_path, flag_idx, flag_path):
     return argv
 
 
+def split_chunks(data, how):
+    """how: 'slow' -> 2..3 pieces at positions derived from the data (deterministic)"""
+    n = len(data)
+    if n < 2:
+        return [data, b""] if n else [b"", b""]
+    a = 1 + (sum(data[:8]) + n) % (n - 1)
+    b = a + (1 + (n * 7 + data[-1]) % (n - a)) if n - a > 1 else n
+    return [c for c in (data[:a], data[a:b], data[b:]) if c or True][: 3]
+
+
 def run_simple(argv, stdin=b"", env=None, via_file=False, timeout=60, binary=None):
-    """via_file: pass the input as a file path instead of `-`/stdin"""
+    """via_file: False = `-` and the whole input written at once; True = a regular file's path;
+    'slow' = `-`, the input written in up to three pieces with pauses; 'fifo' = the path of a named pipe that a writer
+    feeds in pieces with pauses"""
+    if via_file == "slow":
+        argv = ["-" if a == "@INPUT@" else a for a in argv]
+        kind, out, err, _ = core.cli_exec(argv, env=env, stdin=split_chunks(stdin, "slow"), timeout=timeout, binary=binary)
+        return kind, out, err
+    if via_file == "fifo":
+        import threading, time as _t
+        d = tempfile.mkdtemp(prefix="hdwfifo", dir=os.path.join(core.CACHE, "tmp"))
+        path = os.path.join(d, "in")
+        os.mkfifo(path)
+
+        def feed():
+            try:
+                with open(path, "wb", buffering=0) as f:
+                    for i, c in enumerate(split_chunks(stdin, "slow")):
+                        if i:
+                            _t.sleep(0.06)
+                        if c:
+                            f.write(c)
+            except OSError:
+                pass
+        th = threading.Thread(target=feed, daemon=True)
+        th.start()
+        try:
+            argv = [path if a == "@INPUT@" else a for a in argv]
+            kind, out, err, _ = core.cli_exec(argv, env=env, stdin=b"", timeout=timeout, binary=binary)
+        finally:
+            # unblock a writer that nobody read from
+            try:
+                fd = os.open(path, os.O_RDONLY | os.O_NONBLOCK)
+                os.close(fd)
+            except OSError:
+                pass
+            th.join(2)
+            try:
+                os.unlink(path)
+                os.rmdir(d)
+            except OSError:
+                pass
+        return kind, out, err
     if via_file:
         fd, path = tempfile.mkstemp(prefix="hdwin", dir=os.path.join(core.CACHE, "tmp"))
         try:
@@ -164,7 +215,16 @@ def run_cli(case):
             argv += ["--vanity-password=" + utf8(parts[3])]
         argv += selector_args(parts[4], {}, env, None, None, "--vanity-account-index", "--vanity-hd-path")
         shim = {"HDW_SHIM_STREAM": "" if parts[5] == "-" else parts[5]}
+        log = None
+        if meta.get("log"):
+            fd, log = tempfile.mkstemp(prefix="shimlog", dir=os.path.join(core.CACHE, "tmp"))
+            os.close(fd)
+            shim["HDW_SHIM_LOG"] = log
         kind, out, err, _ = core.cli_exec(argv, shim=shim, timeout=meta.get("timeout", 120))
+        if log:
+            with open(log) as f:
+                meta["requests"] = [int(x) for x in f.read().split()]
+            os.unlink(log)
         return render(kind, out)
     if op == "cli.prefix_parse":
         # does the value parser accept the prefix?  With a failing entropy source and -j 0 an accepted prefix
